@@ -1,16 +1,731 @@
 package main
 
 import (
+	"bytes"
+	"context"
 	"fmt"
 	"go/types"
+	"os"
+	"os/exec"
+	"path/filepath"
+	"sort"
+	"strconv"
+	"strings"
+	"time"
 
 	"golang.org/x/tools/go/ssa"
 )
 
-// tryReplay turns a solver model into a concrete test of the real code where a replay template exists.
-// Returns "confirmed", "not-confirmed" or "" (no template).
+// ---------------------------------------------------------------- counterexample replay
+//
+// When an obligation is refuted with a model (`sat`), the model's values of the function's inputs are turned into a Go test
+// that calls the REAL function (injected into its package with `go test -overlay`, nothing is written into /repo):
+//   - for a safety obligation the replay is confirmed when the call panics;
+//   - for a postcondition it is confirmed when the real call returns exactly what the model says it returns (results and the
+//     final contents of slice parameters): the execution the solver found is then a real execution, so the clause it violates
+//     is violated by the real code on that input.
+// Only functions whose inputs can be built from the model are replayed: booleans, integers, fixed-size arrays and slices of
+// integers/bytes, structs of these (by value or behind a pointer receiver/parameter; fields of other kinds are left zero and
+// the record says so), errors (nil / non-nil) and context.Context. Everything else (strings - the string model is
+// uninterpreted -, interfaces, maps, generic functions, closures) is reported as not replayable and the VIOLATION line keeps
+// its `no-failing-input-found` suffix.
+
+const replayMaxElems = 48
+
+type leaf struct {
+	term string
+	val  string // filled from the model
+}
+
+type replayer struct {
+	vc      *VC
+	pkg     *types.Package
+	imports map[string]string // path -> name
+	leaves  []*leaf
+	partial []string
+	bad     string
+	// slice lengths are fixed by a first query; the second query pins them and reads exactly that many elements
+	pins     []string
+	lenTerms []string
+	lenVals  []int
+	phase    int
+}
+
+const replayMaxSlice = 4096
+
+// sliceLen registers a slice-length term and returns the number of elements to read for it in this phase.
+func (r *replayer) sliceLen(term string) int {
+	idx := len(r.lenTerms)
+	r.lenTerms = append(r.lenTerms, term)
+	if r.phase == 2 && idx < len(r.lenVals) && r.lenVals[idx] > 0 && r.lenVals[idx] <= replayMaxSlice {
+		return r.lenVals[idx]
+	}
+	return 0
+}
+
+// addInt adds an integer leaf and pins it to the range of its Go type (elements the code never reads are otherwise
+// unconstrained in the model; every real value is in range, so this excludes no real execution).
+func (r *replayer) addInt(term string, t types.Type) *leaf {
+	if b, ok := t.Underlying().(*types.Basic); ok {
+		if lo, hi, ok := intRange(b); ok {
+			r.pins = append(r.pins, fmt.Sprintf("(assert (and (<= %s %s) (<= %s %s)))", lo, term, term, hi))
+		}
+	}
+	return r.add(term)
+}
+
+func (r *replayer) add(term string) *leaf {
+	l := &leaf{term: term}
+	r.leaves = append(r.leaves, l)
+	return l
+}
+
+func (r *replayer) typeName(t types.Type) string {
+	return types.TypeString(t, func(p *types.Package) string {
+		if p == r.pkg {
+			return ""
+		}
+		r.imports[p.Path()] = p.Name()
+		return p.Name()
+	})
+}
+
+func isIntKind(t types.Type) bool {
+	b, ok := t.Underlying().(*types.Basic)
+	return ok && b.Info()&types.IsInteger != 0
+}
+
+// builder returns a function producing the Go literal of a value once the leaves are filled (ok=false: not expressible).
+// heap: state used to read heap contents (nil = entry heap).
+func (r *replayer) builder(v Val, t types.Type, st *State) func() (string, bool) {
+	vc := r.vc
+	get := func(comp string) string {
+		if st != nil {
+			return vc.get(st, comp)
+		}
+		return vc.initOf(comp)
+	}
+	switch u := t.Underlying().(type) {
+	case *types.Basic:
+		switch {
+		case u.Info()&types.IsBoolean != 0:
+			l := r.add(v.T)
+			return func() (string, bool) { return l.val, l.val == "true" || l.val == "false" }
+		case u.Info()&types.IsInteger != 0:
+			l := r.addInt(v.T, t)
+			tn := r.typeName(t)
+			return func() (string, bool) {
+				if _, err := strconv.ParseInt(l.val, 10, 64); err != nil {
+					if _, err2 := strconv.ParseUint(l.val, 10, 64); err2 != nil {
+						return "", false
+					}
+				}
+				return fmt.Sprintf("%s(%s)", tn, l.val), true
+			}
+		}
+		r.bad = "parameter of type " + t.String() + " cannot be built from the model"
+		return nil
+	case *types.Array:
+		if !isIntKind(u.Elem()) || u.Len() > replayMaxElems {
+			r.bad = "array of " + u.Elem().String()
+			return nil
+		}
+		sortA := vc.sortOf(t)
+		var ls []*leaf
+		for k := int64(0); k < u.Len(); k++ {
+			ls = append(ls, r.addInt(fmt.Sprintf("(at_%s %s %d)", sortA, v.T, k), u.Elem()))
+		}
+		tn := r.typeName(t)
+		return func() (string, bool) {
+			var parts []string
+			for _, l := range ls {
+				parts = append(parts, l.val)
+			}
+			return fmt.Sprintf("%s{%s}", tn, strings.Join(parts, ", ")), true
+		}
+	case *types.Slice:
+		if !isIntKind(u.Elem()) || v.Sl == nil {
+			r.bad = "slice of " + u.Elem().String()
+			return nil
+		}
+		ln, arr := r.add(v.Sl.Len), r.add(v.Sl.Arr)
+		row := fmt.Sprintf("(select %s %s)", get(vc.elemComp(u.Elem())), v.Sl.Arr)
+		var ls []*leaf
+		nEl := r.sliceLen(v.Sl.Len)
+		for k := 0; k < nEl; k++ {
+			ls = append(ls, r.addInt(fmt.Sprintf("(select %s %s)", row, addT(v.Sl.Off, strconv.Itoa(k))), u.Elem()))
+		}
+		tn := r.typeName(t)
+		return func() (string, bool) {
+			n, err := strconv.Atoi(ln.val)
+			if err != nil || n != nEl {
+				return "", false
+			}
+			if arr.val == "0" && n == 0 {
+				return tn + "(nil)", true
+			}
+			var parts []string
+			for k := 0; k < n; k++ {
+				parts = append(parts, ls[k].val)
+			}
+			return fmt.Sprintf("%s{%s}", tn, strings.Join(parts, ", ")), true
+		}
+	case *types.Struct:
+		type fb struct {
+			name string
+			b    func() (string, bool)
+		}
+		var fbs []fb
+		for i := 0; i < u.NumFields(); i++ {
+			ft := u.Field(i).Type()
+			if !r.supported(ft) {
+				r.partial = append(r.partial, fmt.Sprintf("field %s of %s (%s) left zero", u.Field(i).Name(), t.String(), ft.String()))
+				continue
+			}
+			term, _ := vc.project(v.T, t, []Step{{Field: i}})
+			fv := vc.termVal(term, ft)
+			if b := r.builder(fv, ft, st); b != nil {
+				fbs = append(fbs, fb{u.Field(i).Name(), b})
+			}
+		}
+		tn := r.typeName(t)
+		return func() (string, bool) {
+			var parts []string
+			for _, f := range fbs {
+				s, ok := f.b()
+				if !ok {
+					return "", false
+				}
+				parts = append(parts, f.name+": "+s)
+			}
+			return fmt.Sprintf("%s{%s}", tn, strings.Join(parts, ", ")), true
+		}
+	case *types.Pointer:
+		sT, ok := isStruct(u.Elem())
+		if !ok {
+			r.bad = "pointer to " + u.Elem().String()
+			return nil
+		}
+		ref := r.add(v.T)
+		type fb struct {
+			name string
+			b    func() (string, bool)
+		}
+		var fbs []fb
+		for i := 0; i < sT.NumFields(); i++ {
+			ft := sT.Field(i).Type()
+			if !r.supported(ft) {
+				r.partial = append(r.partial, fmt.Sprintf("field %s of %s (%s) left zero", sT.Field(i).Name(), u.Elem().String(), ft.String()))
+				continue
+			}
+			term := fmt.Sprintf("(select %s %s)", get(vc.fieldComp(u.Elem(), i)), v.T)
+			fv := vc.termVal(term, ft)
+			if b := r.builder(fv, ft, st); b != nil {
+				fbs = append(fbs, fb{sT.Field(i).Name(), b})
+			}
+		}
+		tn := r.typeName(u.Elem())
+		return func() (string, bool) {
+			if ref.val == "0" {
+				return "nil", true
+			}
+			var parts []string
+			for _, f := range fbs {
+				s, ok := f.b()
+				if !ok {
+					return "", false
+				}
+				parts = append(parts, f.name+": "+s)
+			}
+			return fmt.Sprintf("&%s{%s}", tn, strings.Join(parts, ", ")), true
+		}
+	case *types.Interface:
+		if types.Identical(t, errorType) {
+			l := r.add(v.T)
+			r.imports["errors"] = "errors"
+			return func() (string, bool) {
+				if l.val == "0" {
+					return "error(nil)", true
+				}
+				return `errors.New("govc-replay")`, true
+			}
+		}
+		if n, ok := types.Unalias(t).(*types.Named); ok && n.Obj().Pkg() != nil && n.Obj().Pkg().Path() == "context" && n.Obj().Name() == "Context" {
+			r.imports["context"] = "context"
+			return func() (string, bool) { return "context.Background()", true }
+		}
+	}
+	r.bad = "value of type " + t.String() + " cannot be built from the model"
+	return nil
+}
+
+func (r *replayer) supported(t types.Type) bool {
+	switch u := t.Underlying().(type) {
+	case *types.Basic:
+		return u.Info()&(types.IsBoolean|types.IsInteger) != 0
+	case *types.Array:
+		return isIntKind(u.Elem()) && u.Len() <= replayMaxElems
+	case *types.Slice:
+		return isIntKind(u.Elem())
+	case *types.Struct:
+		for i := 0; i < u.NumFields(); i++ {
+			if !r.supported(u.Field(i).Type()) {
+				return false
+			}
+		}
+		return true
+	}
+	return false
+}
+
+// printer emits Go statements printing a value as "GOVC-R <n>" lines (one scalar per line, in leaf order of the expectation).
+func (r *replayer) printer(expr string, t types.Type, out *[]string) bool {
+	switch u := t.Underlying().(type) {
+	case *types.Basic:
+		if u.Info()&types.IsBoolean != 0 || u.Info()&types.IsInteger != 0 {
+			*out = append(*out, fmt.Sprintf(`fmt.Println("GOVC-R", %s)`, expr))
+			return true
+		}
+	case *types.Array:
+		if isIntKind(u.Elem()) && u.Len() <= replayMaxElems {
+			for k := int64(0); k < u.Len(); k++ {
+				*out = append(*out, fmt.Sprintf(`fmt.Println("GOVC-R", %s[%d])`, expr, k))
+			}
+			return true
+		}
+	case *types.Slice:
+		if isIntKind(u.Elem()) {
+			*out = append(*out, fmt.Sprintf(`fmt.Println("GOVC-R", len(%s))`, expr))
+			*out = append(*out, fmt.Sprintf(`for _, govcE := range %s { fmt.Println("GOVC-R", govcE) }`, expr))
+			return true
+		}
+	case *types.Struct:
+		for i := 0; i < u.NumFields(); i++ {
+			if !r.supported(u.Field(i).Type()) {
+				continue
+			}
+			if !r.printer(expr+"."+u.Field(i).Name(), u.Field(i).Type(), out) {
+				return false
+			}
+		}
+		return true
+	case *types.Interface:
+		if types.Identical(t, errorType) {
+			*out = append(*out, fmt.Sprintf(`fmt.Println("GOVC-R", %s != nil)`, expr))
+			return true
+		}
+	}
+	return false
+}
+
+// expectation lists the model's values in the order printer prints them.
+func (r *replayer) expectation(v Val, t types.Type, st *State) func() ([]string, bool) {
+	vc := r.vc
+	switch u := t.Underlying().(type) {
+	case *types.Basic:
+		l := r.add(v.T)
+		return func() ([]string, bool) { return []string{l.val}, true }
+	case *types.Array:
+		sortA := vc.sortOf(t)
+		var ls []*leaf
+		for k := int64(0); k < u.Len(); k++ {
+			ls = append(ls, r.addInt(fmt.Sprintf("(at_%s %s %d)", sortA, v.T, k), u.Elem()))
+		}
+		return func() ([]string, bool) {
+			var o []string
+			for _, l := range ls {
+				o = append(o, l.val)
+			}
+			return o, true
+		}
+	case *types.Slice:
+		if v.Sl == nil {
+			return nil
+		}
+		ln := r.add(v.Sl.Len)
+		row := fmt.Sprintf("(select %s %s)", vc.get(st, vc.elemComp(u.Elem())), v.Sl.Arr)
+		var ls []*leaf
+		nEl := r.sliceLen(v.Sl.Len)
+		for k := 0; k < nEl; k++ {
+			ls = append(ls, r.addInt(fmt.Sprintf("(select %s %s)", row, addT(v.Sl.Off, strconv.Itoa(k))), u.Elem()))
+		}
+		return func() ([]string, bool) {
+			n, err := strconv.Atoi(ln.val)
+			if err != nil || n != nEl {
+				return nil, false
+			}
+			o := []string{ln.val}
+			for k := 0; k < n; k++ {
+				o = append(o, ls[k].val)
+			}
+			return o, true
+		}
+	case *types.Struct:
+		var fs []func() ([]string, bool)
+		for i := 0; i < u.NumFields(); i++ {
+			ft := u.Field(i).Type()
+			if !r.supported(ft) {
+				continue
+			}
+			term, _ := vc.project(v.T, t, []Step{{Field: i}})
+			f := r.expectation(vc.termVal(term, ft), ft, st)
+			if f == nil {
+				return nil
+			}
+			fs = append(fs, f)
+		}
+		return func() ([]string, bool) {
+			var o []string
+			for _, f := range fs {
+				p, ok := f()
+				if !ok {
+					return nil, false
+				}
+				o = append(o, p...)
+			}
+			return o, true
+		}
+	case *types.Interface:
+		if types.Identical(t, errorType) {
+			l := r.add(v.T)
+			return func() ([]string, bool) {
+				if l.val == "0" {
+					return []string{"false"}, true
+				}
+				return []string{"true"}, true
+			}
+		}
+	}
+	return nil
+}
+
+// tryReplay returns "confirmed", "not-confirmed" or "" (not replayable); details go into rec.
 func tryReplay(eng *Engine, verif, prop string, it *solveItem, rec map[string]any) string {
-	return ""
+	vc, o := it.vc, it.o
+	fn := vc.fn
+	skip := func(why string) string {
+		rec["replay"] = "not replayable: " + why
+		return ""
+	}
+	if fn == nil || fn.Parent() != nil {
+		return skip("not a top-level function")
+	}
+	if fn.TypeParams().Len() > 0 || (fn.Signature.Recv() != nil && strings.Contains(fn.Signature.Recv().Type().String(), "[")) {
+		return skip("generic function")
+	}
+	kindSafe := o.Kind == "safe"
+	if !kindSafe && o.Kind != "ensures" {
+		return skip("only postconditions and safety obligations are replayed (this is a " + o.Kind + " obligation)")
+	}
+	pkg := fnPkg(fn)
+	if pkg == nil {
+		return skip("no package")
+	}
+	params := fn.Params
+	if len(vc.replayParams) != len(params) {
+		return skip("parameters not recorded")
+	}
+	sig := fn.Signature
+	if !kindSafe && (vc.replayExit == nil || len(vc.replayResults) != sig.Results().Len()) {
+		return skip("results not recorded")
+	}
+	var r *replayer
+	var argBuilders []func() (string, bool)
+	var expects []func() ([]string, bool)
+	var printStmts []string
+	construct := func(phase int, lens []int) string {
+		r = &replayer{vc: vc, pkg: pkg, imports: map[string]string{"fmt": "fmt", "testing": "testing"}, phase: phase, lenVals: lens}
+		argBuilders, expects, printStmts = nil, nil, nil
+		for i, p := range params {
+			b := r.builder(vc.replayParams[i], p.Type(), nil)
+			if b == nil {
+				return r.bad
+			}
+			argBuilders = append(argBuilders, b)
+		}
+		if kindSafe {
+			return ""
+		}
+		// expected outputs (postconditions only): results and the final contents of slice parameters
+		for i := 0; i < sig.Results().Len(); i++ {
+			t := sig.Results().At(i).Type()
+			if !r.printer(fmt.Sprintf("govcRes%d", i), t, &printStmts) {
+				return "result of type " + t.String() + " cannot be compared"
+			}
+			e := r.expectation(vc.replayResults[i], t, vc.replayExit)
+			if e == nil {
+				return "result of type " + t.String() + " cannot be read from the model"
+			}
+			expects = append(expects, e)
+		}
+		for i, p := range params {
+			if _, isSl := p.Type().Underlying().(*types.Slice); isSl && vc.replayParams[i].Sl != nil {
+				if r.printer(fmt.Sprintf("govcArg%d", i), p.Type(), &printStmts) {
+					if e := r.expectation(vc.replayParams[i], p.Type(), vc.replayExit); e != nil {
+						expects = append(expects, e)
+					}
+				}
+			}
+		}
+		return ""
+	}
+	tmp, err := os.MkdirTemp("/var/tmp", "govc-replay-")
+	if err != nil {
+		return skip("tmp dir: " + err.Error())
+	}
+	if os.Getenv("GOVC_DBG") == "" {
+		defer os.RemoveAll(tmp)
+	}
+	base := strings.TrimSuffix(strings.TrimSpace(vc.query(o)), "(get-model)")
+	base = strings.TrimSuffix(strings.TrimSpace(base), "(check-sat)")
+	ask := func(pins []string, terms []string) ([]string, string) {
+		q := base + "\n" + strings.Join(pins, "\n") + "\n(check-sat)\n(get-value (" + strings.Join(terms, "\n ") + "))\n"
+		qf := filepath.Join(tmp, "q.smt2")
+		os.WriteFile(qf, []byte(q), 0o644)
+		ctx, cancel := context.WithTimeout(context.Background(), 70*time.Second)
+		defer cancel()
+		out, _ := exec.CommandContext(ctx, "z3-new", "-T:60", qf).CombinedOutput()
+		text := string(out)
+		if !strings.HasPrefix(strings.TrimSpace(text), "sat") {
+			return nil, "the model could not be re-queried (" + strings.SplitN(strings.TrimSpace(text), "\n", 2)[0] + ")"
+		}
+		vals, ok := parseGetValue(text[strings.Index(text, "sat")+3:])
+		if !ok || len(vals) != len(terms) {
+			return nil, "could not parse the model values"
+		}
+		return vals, ""
+	}
+	// phase 1: slice lengths only
+	if why := construct(1, nil); why != "" {
+		return skip(why)
+	}
+	var lens []int
+	var pins []string
+	if len(r.lenTerms) > 0 {
+		// prefer a small counterexample: lengths up to 64 first, then up to replayMaxSlice
+		var vals []string
+		why := ""
+		for _, bound := range []int{64, replayMaxSlice} {
+			var bnd []string
+			for _, t := range r.lenTerms {
+				bnd = append(bnd, fmt.Sprintf("(assert (<= %s %d))", t, bound))
+			}
+			if vals, why = ask(bnd, r.lenTerms); why == "" {
+				break
+			}
+		}
+		if why != "" {
+			return skip("no counterexample with slice lengths up to " + strconv.Itoa(replayMaxSlice) + ": " + why)
+		}
+		for i, v := range vals {
+			n, err := strconv.Atoi(v)
+			if err != nil || n < 0 || n > replayMaxSlice {
+				return skip("a slice length in the model (" + v + ") is outside what a test can build")
+			}
+			lens = append(lens, n)
+			pins = append(pins, fmt.Sprintf("(assert (= %s %d))", r.lenTerms[i], n))
+		}
+	}
+	// phase 2: everything, with the lengths pinned
+	if why := construct(2, lens); why != "" {
+		return skip(why)
+	}
+	var terms []string
+	for _, l := range r.leaves {
+		terms = append(terms, l.term)
+	}
+	if len(terms) == 0 {
+		terms = []string{"true"}
+	}
+	vals, why := ask(append(pins, r.pins...), terms)
+	if why != "" {
+		return skip(why)
+	}
+	for i, l := range r.leaves {
+		l.val = vals[i]
+	}
+	var args []string
+	for _, b := range argBuilders {
+		s, ok := b()
+		if !ok {
+			return skip("a model value is outside what a test can build (non-integer value or inconsistent length)")
+		}
+		args = append(args, s)
+	}
+	var expected []string
+	for _, e := range expects {
+		p, ok := e()
+		if !ok {
+			return skip("a model result is outside what a test can compare")
+		}
+		expected = append(expected, p...)
+	}
+	// the test
+	call := ""
+	var decls []string
+	for i, a := range args {
+		decls = append(decls, fmt.Sprintf("govcArg%d := %s", i, a))
+	}
+	var argNames []string
+	for i := range args {
+		argNames = append(argNames, fmt.Sprintf("govcArg%d", i))
+	}
+	if fn.Signature.Recv() != nil {
+		call = fmt.Sprintf("govcArg0.%s(%s)", fn.Name(), strings.Join(argNames[1:], ", "))
+	} else {
+		call = fmt.Sprintf("%s(%s)", fn.Name(), strings.Join(argNames, ", "))
+	}
+	var resNames []string
+	for i := 0; i < sig.Results().Len(); i++ {
+		resNames = append(resNames, fmt.Sprintf("govcRes%d", i))
+	}
+	var body bytes.Buffer
+	body.WriteString("package " + pkg.Name() + "\n\nimport (\n")
+	var imps []string
+	for p := range r.imports {
+		imps = append(imps, p)
+	}
+	sort.Strings(imps)
+	for _, p := range imps {
+		body.WriteString(fmt.Sprintf("\t%s %q\n", r.imports[p], p))
+	}
+	body.WriteString(")\n\n// generated by govc from the solver's counterexample for " + o.Name + "\n")
+	body.WriteString("func TestZZGovcReplay(t *testing.T) {\n\tdefer func() {\n\t\tif r := recover(); r != nil {\n\t\t\tfmt.Println(\"GOVC-PANIC\", r)\n\t\t}\n\t}()\n")
+	for _, d := range decls {
+		body.WriteString("\t" + d + "\n")
+	}
+	if len(resNames) > 0 {
+		body.WriteString("\t" + strings.Join(resNames, ", ") + " := " + call + "\n")
+		for _, n := range resNames {
+			body.WriteString("\t_ = " + n + "\n")
+		}
+	} else {
+		body.WriteString("\t" + call + "\n")
+	}
+	for _, n := range argNames {
+		body.WriteString("\t_ = " + n + "\n")
+	}
+	body.WriteString("\tfmt.Println(\"GOVC-RETURNED\")\n")
+	for _, s := range printStmts {
+		body.WriteString("\t" + s + "\n")
+	}
+	body.WriteString("}\n")
+	// run it against the real package
+	pkgDir := ""
+	for _, p := range eng.pkgs {
+		if p.Types == pkg && len(p.GoFiles) > 0 {
+			pkgDir = filepath.Dir(p.GoFiles[0])
+		}
+	}
+	if pkgDir == "" {
+		for _, sp := range eng.prog.AllPackages() {
+			if sp.Pkg == pkg {
+				if f := eng.fset.File(fn.Pos()); f != nil {
+					pkgDir = filepath.Dir(f.Name())
+				}
+			}
+		}
+	}
+	if pkgDir == "" {
+		return skip("package directory not found")
+	}
+	testFile := filepath.Join(tmp, "zz_govc_replay_test.go")
+	os.WriteFile(testFile, body.Bytes(), 0o644)
+	ov := filepath.Join(tmp, "overlay.json")
+	os.WriteFile(ov, []byte(fmt.Sprintf(`{"Replace": {%q: %q}}`, filepath.Join(pkgDir, "zz_govc_replay_test.go"), testFile)), 0o644)
+	ctx2, cancel2 := context.WithTimeout(context.Background(), 170*time.Second)
+	defer cancel2()
+	cmd := exec.CommandContext(ctx2, "go", "test", "-overlay", ov, "-vet=off", "-v", "-count=1", "-timeout", "60s", "-run", "^TestZZGovcReplay$", ".")
+	cmd.Dir = pkgDir
+	cmd.Env = append(os.Environ(), "GOFLAGS=", "GOPROXY=off")
+	tout, _ := cmd.CombinedOutput()
+	rec["replay_test"] = body.String()
+	rec["replay_output"] = truncate(string(tout), 6000)
+	var got []string
+	panicked, returned := false, false
+	for _, line := range strings.Split(string(tout), "\n") {
+		switch {
+		case strings.HasPrefix(line, "GOVC-PANIC"):
+			panicked = true
+		case strings.HasPrefix(line, "GOVC-RETURNED"):
+			returned = true
+		case strings.HasPrefix(line, "GOVC-R "):
+			got = append(got, strings.TrimSpace(strings.TrimPrefix(line, "GOVC-R ")))
+		}
+	}
+	if len(r.partial) > 0 {
+		rec["replay_partial_objects"] = r.partial
+	}
+	if kindSafe {
+		if panicked {
+			rec["replay"] = "confirmed: the real function panics on the counterexample input"
+			return "confirmed"
+		}
+		rec["replay"] = "not confirmed: the real function did not panic on the model's input (the model may rely on an abstraction)"
+		return "not-confirmed"
+	}
+	if !returned {
+		rec["replay"] = "not confirmed: the replay test did not run to completion"
+		return "not-confirmed"
+	}
+	rec["replay_expected"] = expected
+	rec["replay_observed"] = got
+	if len(got) == len(expected) {
+		same := true
+		for i := range got {
+			if !sameScalar(got[i], expected[i]) {
+				same = false
+			}
+		}
+		if same {
+			rec["replay"] = "confirmed: on the counterexample input the real function returns exactly what the model says (results and final slice contents), so the violating execution is real"
+			return "confirmed"
+		}
+	}
+	rec["replay"] = "not confirmed: the real function's outputs differ from the model's (the model relies on an abstraction of a callee or of the heap)"
+	return "not-confirmed"
+}
+
+func sameScalar(a, b string) bool {
+	if a == b {
+		return true
+	}
+	x, e1 := strconv.ParseInt(a, 10, 64)
+	y, e2 := strconv.ParseInt(b, 10, 64)
+	if e1 == nil && e2 == nil {
+		return x == y
+	}
+	ux, e3 := strconv.ParseUint(a, 10, 64)
+	uy, e4 := strconv.ParseUint(b, 10, 64)
+	return e3 == nil && e4 == nil && ux == uy
+}
+
+// parseGetValue parses "((t1 v1) (t2 v2) ...)" into the list of values (ints as decimal strings, booleans).
+func parseGetValue(s string) ([]string, bool) {
+	s = strings.TrimSpace(s)
+	if !strings.HasPrefix(s, "(") {
+		return nil, false
+	}
+	outer := splitSexp(s)
+	if len(outer) == 0 {
+		return nil, false
+	}
+	inner := outer[0]
+	pairs := splitSexp(inner[1 : len(inner)-1])
+	var vals []string
+	for _, p := range pairs {
+		parts := splitSexp(p[1 : len(p)-1])
+		if len(parts) < 2 {
+			return nil, false
+		}
+		v := parts[len(parts)-1]
+		v = strings.TrimSpace(v)
+		if strings.HasPrefix(v, "(-") {
+			v = "-" + strings.TrimSpace(strings.TrimSuffix(strings.TrimPrefix(v, "(-"), ")"))
+		}
+		vals = append(vals, v)
+	}
+	return vals, true
 }
 
 // cmdModset prints the computed (flow-insensitive, transitive) modification set of a function: debugging aid.
